@@ -1,6 +1,7 @@
 """C12 — no script, variable map or ledger state can crash the engine."""
 import re
 from checks.numlib import *
+from checks.syntaxlib import run_syntax
 
 META = {
     "text": "Stage 1: Spec.run is a total Lean function whose outcome type has no crash alternative (outcome_defined, first_error_wins, run_is_pure) and is "
@@ -22,6 +23,8 @@ def run(ctx):
     ctx.cov["trusted_base"] = TRUSTED
     ctx.cov["partial"] = "parser and bytecode VM not modelled: crash-freedom of the real code is observed on samples, proved only for Spec"
     ctx.l1()
+    if run_syntax(ctx):  # front end (lexer+parser) on script texts; True = it served a --replay of one of its own cases
+        return
     r = run_numscript(ctx, 2500 if ctx.quick else 100000)
     if r is None:
         return
